@@ -147,15 +147,16 @@ class Net:
 
     def _post(self, src, dst, msg, prio):
         self.posted += 1
+        self.seq += 1
         self.log.append(("post", src, dst, msg))
         ch = self.channels.setdefault((src, dst), deque())
         if prio == 19 and dst == src or (prio == 19):
             # re-injection of messages buffered before start / while paused: they must be
             # handled before newer messages of the same channel -> kept in a side list
             ch_re = self.channels.setdefault((src, dst, "re"), deque())
-            ch_re.append((msg, prio))
+            ch_re.append((msg, prio, self.seq))
             return
-        ch.append((msg, prio))
+        ch.append((msg, prio, self.seq))
 
     # -- driving
     def start(self, name):
@@ -178,7 +179,7 @@ class Net:
         return out
 
     def deliver(self, key):
-        msg, prio = self.channels[key].popleft()
+        msg, prio, _seq = self.channels[key].popleft()
         src, dst = key[0], key[1]
         self.delivered += 1
         self.log.append(("deliver", src, dst, msg))
@@ -200,10 +201,12 @@ class Net:
             en = self.enabled()
             if not en:
                 break
-            if policy == "fifo":
+            if policy == "fifo":      # global posting order (fair)
+                key = min(en, key=lambda k: self.channels[k][0][2])
+            elif policy == "lifo":    # channel whose head was posted last (unfair: only for algorithms that quiesce)
+                key = max(en, key=lambda k: self.channels[k][0][2])
+            elif policy == "first":
                 key = en[0]
-            elif policy == "lifo":
-                key = en[-1]
             elif policy == "rr":
                 key = en[n % len(en)]
             elif policy == "random":
